@@ -147,19 +147,21 @@ func build(d BatchDesc) pbatch {
 }
 
 type run struct {
-	noTs      map[int64]bool // offsets stored in message format 0 (no timestamp on the wire)
-	sc        *Script
-	rec       *trace.Recorder
-	net       *fakenet.Net
-	cl        *fakekafka.Cluster
-	mu        sync.Mutex
-	batches   []pbatch
-	faults    []Fault
-	nfetch    int
-	quiet     bool // consecutive identical empty polls at the end of the log are recorded once
-	quietAt   int64
-	lastKey   string
-	lastClose int64
+	noTs         map[int64]bool // offsets stored in message format 0 (no timestamp on the wire)
+	sc           *Script
+	rec          *trace.Recorder
+	net          *fakenet.Net
+	cl           *fakekafka.Cluster
+	mu           sync.Mutex
+	batches      []pbatch
+	faults       []Fault
+	nfetch       int
+	quiet        bool // consecutive identical empty polls at the end of the log are recorded once
+	quietAt      int64
+	lastListConn int
+	quietConn    int
+	lastKey      string
+	lastClose    int64
 }
 
 var (
@@ -221,7 +223,13 @@ func (r *run) served(off int64) []int {
 func (r *run) intercept(req *fakekafka.Request) *fakekafka.Reply {
 	switch req.ApiKey {
 	case fakekafka.ListOffsets:
-		r.rec.Emit(trace.Event{"ev": "listoffsets", "conn": req.Conn.ID})
+		r.mu.Lock()
+		first := r.lastListConn != req.Conn.ID
+		r.lastListConn = req.Conn.ID
+		r.mu.Unlock()
+		if first {
+			r.rec.Emit(trace.Event{"ev": "listoffsets", "conn": req.Conn.ID})
+		}
 		return nil
 	case fakekafka.Fetch:
 	default:
@@ -235,7 +243,7 @@ func (r *run) intercept(req *fakekafka.Request) *fakekafka.Reply {
 	r.mu.Lock()
 	defer r.mu.Unlock()
 	r.nfetch++
-	ev := trace.Event{"ev": "fetch", "off": off, "conn": req.Conn.ID, "kind": "data", "nb": 0, "truncated": false, "j": 0, "code": 0, "v": int(req.Version)}
+	ev := trace.Event{"ev": "fetch", "off": off, "conn": req.Conn.ID, "kind": "data", "nb": 0, "truncated": false, "hdr": false, "j": 0, "code": 0, "v": int(req.Version)}
 	emit := func() { r.rec.Emit(ev) }
 	if leader != req.Broker.ID {
 		ev["kind"], ev["code"] = "err", 6
@@ -265,11 +273,11 @@ func (r *run) intercept(req *fakekafka.Request) *fakekafka.Reply {
 		ev["kind"] = "empty"
 		rep := r.reply(req, 0, hw, start, []byte{})
 		rep.Delay = 25 * time.Millisecond // a real broker waits for MaxWait before answering without data
-		if r.quiet && r.quietAt == off && f == nil {
+		if r.quiet && r.quietAt == off && r.quietConn == req.Conn.ID && f == nil {
 			return &rep
 		}
 		if f == nil {
-			r.quiet, r.quietAt = true, off
+			r.quiet, r.quietAt, r.quietConn = true, off, req.Conn.ID
 		}
 		rep.OnSend = emit
 		return &rep
@@ -333,13 +341,49 @@ func (r *run) intercept(req *fakekafka.Request) *fakekafka.Reply {
 			}
 		}
 	}
+	if len(set) == 0 && (f == nil || f.Kind != "cut") {
+		// the fault left nothing to send: an answer without data
+		ev["kind"] = "empty"
+		rep := r.reply(req, 0, hw, start, []byte{})
+		rep.Delay = 25 * time.Millisecond
+		rep.OnSend = emit
+		return &rep
+	}
 	ev["nb"], ev["truncated"], ev["j"] = nb, truncated, j
+	if truncated {
+		// did the header of the truncated batch arrive completely?
+		whole := 0
+		for k := 0; k < nb; k++ {
+			whole += len(r.batches[idx[k]].Bytes)
+		}
+		need := 61
+		switch r.batches[idx[nb]].Magic {
+		case 1:
+			need = 26
+		case 0:
+			need = 18
+		}
+		ev["hdr"] = len(set)-whole >= need
+	}
+	if nb == 0 && truncated && j == 0 {
+		// is the header of the first batch complete? (61 bytes for a record batch, 26/18 for a v1/v0 message)
+		hdr := 61
+		switch r.batches[idx[0]].Magic {
+		case 1:
+			hdr = 26
+		case 0:
+			hdr = 18
+		}
+		if len(set) < hdr && (f == nil || f.Kind != "cut") {
+			ev["kind"] = "shorthdr"
+		}
+	}
 	rep := r.reply(req, 0, hw, start, set)
 	key := fmt.Sprintf("%d/%d/%d/%v/%d/%v", req.Conn.ID, off, nb, truncated, j, f != nil)
 	if f == nil && key == r.lastKey && r.lastClose == off {
 		// the same answer to the same request without progress in between (e.g. a compacted tail the
 		// client cannot step over): record the cycle once and slow it down
-		r.quiet, r.quietAt = true, off
+		r.quiet, r.quietAt, r.quietConn = true, off, req.Conn.ID
 		rep.Delay = 5 * time.Millisecond
 		return &rep
 	}
@@ -437,7 +481,7 @@ func descEvent(d BatchDesc) map[string]interface{} {
 	for i, o := range d.Present {
 		pr[i] = o
 	}
-	return map[string]interface{}{"base": d.Base, "last": d.Last, "present": pr, "fmt": d.Fmt}
+	return map[string]interface{}{"base": d.Base, "last": d.Last, "present": pr, "fmt": d.Fmt, "codec": d.Codec}
 }
 
 // Run executes one script and returns its trace.
@@ -486,7 +530,7 @@ func Run(sc *Script) []trace.Event {
 	rd := kafka.NewReader(kafka.ReaderConfig{
 		Brokers: []string{"b2:9092", "b1:9092"}, Topic: topic, Partition: 0,
 		Dialer:        &kafka.Dialer{DialFunc: r.net.DialContext, Timeout: 2 * time.Second, ClientID: "vh"},
-		QueueCapacity: qcap, MinBytes: 1, MaxBytes: maxBytes, MaxWait: 60 * time.Millisecond,
+		QueueCapacity: qcap, MinBytes: 1, MaxBytes: maxBytes, MaxWait: 500 * time.Millisecond,
 		ReadBackoffMin: time.Millisecond, ReadBackoffMax: 5 * time.Millisecond, ReadBatchTimeout: 500 * time.Millisecond,
 		MaxAttempts: 3,
 	})
